@@ -205,6 +205,26 @@ impl Compactor {
         Ok(())
     }
 
+    /// Replay hook for the verification framework in /verif: one pass of the compactor loop over
+    /// all tables, on demand. The first error is returned instead of logged.
+    #[cfg(feature = "verif_hooks")]
+    pub async fn verif_compact_once(storage: Arc<SecondaryStorage>) -> StorageResult<()> {
+        let (_tx, rx) = tokio::sync::oneshot::channel();
+        let this = Self::new(storage, rx);
+        let tables = this.storage.tables.read().clone();
+        let pin_version = this.storage.version.pin();
+        for (_, table) in tables {
+            if let Some(_guard) = this
+                .storage
+                .txn_mgr
+                .try_lock_for_compaction(table.table_id())
+            {
+                this.compact_table(&pin_version.snapshot, table).await?;
+            }
+        }
+        Ok(())
+    }
+
     pub async fn run(mut self) -> StorageResult<()> {
         loop {
             {
